@@ -5,6 +5,7 @@
 extern "C" {
 PyObject *vpy_int(long v);
 PyObject *vpy_uint(unsigned long v);
+PyObject *vpy_ptr(void *p);   // an object address as a Python int (addresses are below 2^63 on LP64 user space)
 PyObject *vpy_float(double d);
 PyObject *vpy_bool(bool b);
 PyObject *vpy_str(const char *s);
